@@ -507,6 +507,7 @@ class SX:
         self.fn_transform = None           # callable(FunctionDef) -> FunctionDef: semantic-preserving normalisation before evaluation
         self._fn_cache = {}
         self.div_sites = []                # (BinOp node, denominator term, guards) of every division (track_div_zero)
+        self.arith_log = set()             # (left kind, op, right kind) of every quantity operation interpreted natively
         self.cmp_sides = None              # when a list: (node, op, left term, right term) of every numeric comparison evaluated
         self.guard_sources = {}            # (kind, key) of a guard -> source texts of the tests that produced it
         self.variable_kinds = {}           # recorded-variable name -> quantity kind (typing of time_variables[...])
@@ -1924,6 +1925,9 @@ class SX:
         if isinstance(l, NoneV) or isinstance(r, NoneV):
             return Outcome(st, 'raise', 'TypeError', node.lineno)
         f = {'+': lambda a, b: a + b, '-': lambda a, b: a - b, '*': lambda a, b: a * b, '/': lambda a, b: a / b}[opc]
+        if isinstance(l, Q) or isinstance(r, Q):
+            # operator triples interpreted natively: what the dunders really do for them is C06's dispatch model
+            self.arith_log.add((l.kind if isinstance(l, Q) else 'number', opc, r.kind if isinstance(r, Q) else 'number'))
         if opc == '/':
             rt = r.term if isinstance(r, (N, Q, Dyn)) else None
             if rt is not None and rt.is_zero():
